@@ -1,0 +1,12 @@
+//go:build verif
+// +build verif
+
+package quicmemberlist
+
+// VerifMembersPool exposes the member table to the conformance harness
+// (/verif, property C37). No behaviour is added.
+type VerifMembersPool = membersPool
+
+func VerifNewMembersPool() *VerifMembersPool {
+	return newMembersPool()
+}
